@@ -160,20 +160,22 @@ class Wrapper:
 # --------------------------------------------------------------------------------------
 
 class Case:
-    def __init__(self, mid, flags, signs, ptrs):
+    def __init__(self, mid, flags, signs, ptrs, rels=None):
         self.mid = mid          # 'DOUBLE' / 'COMPLEX' / None
         self.flags = flags      # var -> char
         self.signs = signs      # var -> 0 / 1
         self.ptrs = ptrs        # var -> bool (non-NULL?)
+        self.rels = rels or {}  # (a, b) -> bool : truth of `a < b` for two integer variables
 
     def key(self):
         return (self.mid, tuple(sorted(self.flags.items())), tuple(sorted(self.signs.items())),
                 tuple(sorted(self.ptrs.items())))
 
     def __repr__(self):
-        return "id=%s %s %s %s" % (self.mid, " ".join("%s='%s'" % kv for kv in sorted(self.flags.items())),
+        return "id=%s %s %s %s%s" % (self.mid, " ".join("%s='%s'" % kv for kv in sorted(self.flags.items())),
                                    " ".join("%s%s" % (k, ">0" if v else "=0") for k, v in sorted(self.signs.items())),
-                                   " ".join("%s%s" % ("" if v else "!", k) for k, v in sorted(self.ptrs.items())))
+                                   " ".join("%s%s" % ("" if v else "!", k) for k, v in sorted(self.ptrs.items())),
+                                   "".join(" %s%s%s" % (a, "<" if v else ">=", b) for (a, b), v in sorted(self.rels.items())))
 
 
 CMP = {"==", "!=", "<", ">", "<=", ">="}
@@ -235,6 +237,20 @@ def peval(e, case):
                     return True
                 if op == "<":
                     return False
+        if l[0] == "id" and r[0] == "id" and op in ("<", ">", "<=", ">=") and getattr(case, "rels", None):
+            a, b = l[1], r[1]
+            if (a, b) in case.rels:        # a < b known
+                v = case.rels[(a, b)]
+                if op == "<":
+                    return v
+                if op == ">=":
+                    return not v
+            if (b, a) in case.rels:        # b < a known
+                v = case.rels[(b, a)]
+                if op == ">":
+                    return v
+                if op == "<=":
+                    return not v
         if l[0] == "id" and r[0] == "id" and r[1] == "NULL" and l[1] in case.ptrs and op in ("==", "!="):
             return case.ptrs[l[1]] == (op == "!=")
         if l[0] == "call" and l[1] in ("MAT_ID", "X_ID", "SP_ID") and r[0] == "id" and r[1] in ("DOUBLE", "COMPLEX", "INT") \
@@ -263,6 +279,29 @@ def conjuncts(e):
     if e[0] == "bin" and e[1] == "&&":
         return conjuncts(e[2]) + conjuncts(e[3])
     return [e]
+
+
+def _resolve(e, case):
+    """resolve ternaries whose condition is decided by the case"""
+    if not isinstance(e, tuple):
+        return e
+    k = e[0]
+    if k == "tern":
+        v = peval(e[1], case)
+        if v is True:
+            return _resolve(e[2], case)
+        if v is False:
+            return _resolve(e[3], case)
+        return ("tern", e[1], _resolve(e[2], case), _resolve(e[3], case))
+    if k == "bin":
+        return ("bin", e[1], _resolve(e[2], case), _resolve(e[3], case))
+    if k == "un":
+        return ("un", e[1], _resolve(e[2], case))
+    if k == "cast":
+        return ("cast", e[1], _resolve(e[2], case))
+    if k == "call":
+        return ("call", e[1], [_resolve(a, case) for a in e[2]])
+    return e
 
 
 class Fact:
@@ -326,6 +365,7 @@ class Simulator:
         self.fn = cfile.funcs[fname]
         self.body = cf.body_of(self.fn)
         self._cond_cache = {}
+        self.rel_vars = set()
         self.flag_vars, self.sign_vars, self.ptr_vars = self._discover()
         self.parse_errors = []
 
@@ -383,7 +423,25 @@ class Simulator:
                 if rej and cc[0] == "bin" and cc[1] in ("<", "<=", "==") and cx.strip_casts(cc[2])[0] == "id" \
                         and cx.strip_casts(cc[3]) == ("num", 0):
                     continue      # `if (v < 0) error`: a global fact about v, not a case split
+                if cc[0] == "bin" and cc[1] in ("<", "==") and cx.strip_casts(cc[2])[0] == "id" \
+                        and cx.strip_casts(cc[3]) == ("num", 0) and len(st.get("c", [])) == 2:
+                    then = st["c"][1]
+                    if then.get("k") == "CompoundStmt" and len(then.get("c", [])) == 1:
+                        then = then["c"][0]
+                    if then.get("k") == "BinaryOperator" and then.get("op") == "=" and \
+                            cf.strip(then["c"][0]).get("ref") == cx.strip_casts(cc[2])[1]:
+                        continue  # `if (v == 0) v = default;` / `if (v < 0) v = default;`: default idiom
                 self._scan_cond(c, loc, flags, signs, ptrs, rej)
+        # relational tests inside the arguments of library calls (`cond ? buf : NULL`)
+        for n in cf.walk(self.body):
+            if n.get("k") == "ConditionalOperator" and not n.get("bm") and n.get("b") is not None:
+                end = self.c.srcb.find(b"?", n["b"])
+                if 0 < end - n["b"] < 200:
+                    try:
+                        ce = cx.parse(self.c.text(n["b"], end))
+                        self._scan_cond(ce, loc, {}, set(), set(), False)
+                    except cx.ParseError:
+                        pass
         # flags: only characters with a validated value set
         flags = {k: sorted(v) for k, v in flags.items() if v}
         return flags, sorted(signs), sorted(ptrs)
@@ -412,6 +470,11 @@ class Simulator:
                 signs.add(l[1])
             elif l[0] == "id" and r[0] == "id" and r[1] == "NULL" and "*" in loc.get(l[1], ""):
                 ptrs.add(l[1])
+            elif l[0] == "id" and r[0] == "id" and loc.get(l[1]) == "int" and loc.get(r[1]) == "int" \
+                    and e[1] in ("<", ">", "<=", ">="):
+                a, b = (l[1], r[1]) if e[1] in ("<", ">=") else (r[1], l[1])
+                if (b, a) not in self.rel_vars:
+                    self.rel_vars.add((a, b))
 
     def cases(self, mids=("DOUBLE", "COMPLEX"), max_cases=6000):
         fl = sorted(self.flag_vars.items())
@@ -428,18 +491,22 @@ class Simulator:
         else:
             sign_sets = [dict(zip(dims, c)) for c in itertools.product((1, 0), repeat=len(dims))]
             ptr_sets = [dict(zip(ptrs, c)) for c in itertools.product((True, False), repeat=len(ptrs))]
+        rels = sorted(self.rel_vars)[:3]
+        rel_sets = [dict(zip(rels, c)) for c in itertools.product((True, False), repeat=len(rels))]
         for mid in mids:
             for combo in itertools.product(*[v for _, v in fl]):
                 fd = dict(zip([k for k, _ in fl], combo))
                 for sg in sign_sets:
                     for pt in ptr_sets:
-                        yield Case(mid, fd, sg, pt)
+                        for rl in rel_sets:
+                            yield Case(mid, fd, sg, pt, rl)
 
     # ---- abstract execution ------------------------------------------------------------
     def run(self, case, externs):
         """-> (list of CallSite, ended: 'return'|'error'|'fallthrough', notes)"""
         self.sites = []
-        self.case = case
+        self.case = Case(case.mid, dict(case.flags), dict(case.signs), dict(case.ptrs), dict(case.rels))
+        self.orig_case = case
         self.externs = externs
         self.assigned_after_guard = []
         self.guarded_vars = set()
@@ -474,7 +541,7 @@ class Simulator:
             # unknown
             if is_error_exit(then):
                 if v is not None:
-                    new = facts_of_rejected(v)
+                    new = facts_of_rejected(_resolve(v, self.case))
                     facts.extend(new)
                     for f in new:
                         self.guarded_vars |= f.idents
@@ -632,12 +699,28 @@ class Simulator:
                             f.D = f.D.subs(sub)
                             f.text = f.text + "  [after %s *= %d]" % (tgt, c)
                     continue
+            if tgt and tgt in self.case.flags and n.get("k") == "BinaryOperator" and n.get("op") == "=" \
+                    and cf.strip(n["c"][1]).get("k") == "CharacterLiteral":
+                try:
+                    self.case.flags[tgt] = chr(int(cf.strip(n["c"][1]).get("v")))
+                except Exception:
+                    self.case.flags.pop(tgt, None)
+                continue
             if tgt:
                 # facts about the old value of tgt no longer hold
                 before = len(facts)
                 facts[:] = [f for f in facts if tgt not in f.idents]
                 if before != len(facts):
                     self.assigned_after_guard.append((tgt, st))
+                # a plain top-level assignment `v = E` (E not mentioning v) gives v == E
+                if n is st and n.get("k") == "BinaryOperator" and n.get("op") == "=":
+                    e = self.stmt_expr(st)
+                    if e and e[0] == "assign" and e[1] == "=" and e[2] == ("id", tgt) and tgt not in cx.idents(e[3]):
+                        p = cx.to_poly(e[3])
+                        if p is not None:
+                            f = Fact("==", e[2], e[3], cx.unparse(e))
+                            f.assign_var, f.assign_poly = tgt, p
+                            facts.append(f)
 
     def _call(self, call, facts, in_threads, path):
         nm = cf.callee_name(call)
@@ -647,4 +730,5 @@ class Simulator:
             args = self.call_args(call)
             if args is None:
                 return
-            self.sites.append(CallSite(call, nm, args, facts, self.case, in_threads, list(path)))
+            snap = Case(self.case.mid, dict(self.case.flags), dict(self.case.signs), dict(self.case.ptrs), dict(self.case.rels))
+            self.sites.append(CallSite(call, nm, args, facts, snap, in_threads, list(path)))
